@@ -12,6 +12,5 @@ rm -rf "$D/demo"; cp -r "$WT/_seed/demo$K" "$D/demo"
 cp "$WT/_seed/meta$K.json" "$D/agent_meta.json" 2>/dev/null
 echo "$RES" > "$D/confirmation.txt"
 echo "### $P-$K try all quick checks"
-python3 /verif/tools/try_seed.py "$D/patch.diff" > "$D/try_quick.txt" 2>&1
+TRY_REPO=/tmp/repo-try TRY_VERIF=/tmp/verif-snap TRY_OUT="$D/try_quick.json" python3 /tmp/verif-snap/tools/try_seed.py "$D/patch.diff" > "$D/try_quick.txt" 2>&1
 tail -1 "$D/try_quick.txt"
-cp /tmp/try_seed_last.json "$D/try_quick.json"
